@@ -115,6 +115,7 @@ fn interleaving_hash(h: &History) -> u64 {
             Kind::Note(_) => "No",
             Kind::MockAnswer { .. } => "MA",
             Kind::MockFailure { .. } => "MF",
+            Kind::MockDirect { .. } => "MD",
         };
         for b in tag.as_bytes() {
             x ^= *b as u64;
